@@ -256,3 +256,41 @@ func c18Run(turns int) {
 func VerifC18Turns1() { c18Run(1) }
 func VerifC18Turns2() { c18Run(2) }
 func VerifC18Turns3() { c18Run(3) }
+
+// the agent embedded as a node of a parent graph (ExportGraph) keeps its configured step limit
+func VerifC18Embedded() {
+	ctx := context.Background()
+	vcfg("fifo", 1)
+	vcfg("selectfirst", 1)
+	var runs []string
+	// a runaway model: every answer asks for a tool again
+	var script []*schema.Message
+	var chunking []int
+	for k := 0; k < 12; k++ {
+		ix := 0
+		script = append(script, &schema.Message{Role: schema.Assistant, Content: "again",
+			ToolCalls: []schema.ToolCall{{Index: &ix, ID: "c", Function: schema.FunctionCall{Name: "t0", Arguments: "x"}}}})
+		chunking = append(chunking, 0)
+	}
+	mdl := &c18Model{script: script, chunking: chunking}
+	maxStep := vrange("maxStep", 2, 6)
+	ag, err := NewAgent(ctx, &AgentConfig{ToolCallingModel: mdl, MaxStep: maxStep,
+		ToolsConfig: compose.ToolsNodeConfig{Tools: []tool.BaseTool{&c18Tool{"t0", &runs}}}})
+	vassert(err == nil, "agent is created")
+	g, opts := ag.ExportGraph()
+	parent := compose.NewGraph[[]*schema.Message, *schema.Message]()
+	vassert(parent.AddGraphNode("agent", g, opts...) == nil, "agent graph added to a parent graph")
+	_ = parent.AddEdge(compose.START, "agent")
+	_ = parent.AddEdge("agent", compose.END)
+	r, err := parent.Compile(ctx)
+	vassert(err == nil, "parent graph compiles")
+	embedded := vchoose("embedded", 2) == 1
+	var rerr error
+	if embedded {
+		_, rerr = r.Invoke(ctx, []*schema.Message{schema.UserMessage("q")})
+	} else {
+		_, rerr = ag.Generate(ctx, []*schema.Message{schema.UserMessage("q")})
+	}
+	vassert(rerr != nil && errors.Is(rerr, compose.ErrExceedMaxSteps), "a runaway model is stopped by the step-limit error, also when the agent runs as a node of another graph")
+	vassert(mdl.calls <= (maxStep+1)/2, "the configured step limit is the one enforced: no more model calls than it allows")
+}
